@@ -140,11 +140,23 @@ func (r *Report) finish() int {
 		}
 	}
 	sort.Strings(deadCalls)
+	var deadFns []string
 	for f := range retAny {
 		if !retSat[f] {
-			vacuous++
-			fmt.Printf("VACUOUS property=%s %s: no return path is reachable under the contract assumptions\n", rc.prop, f)
+			deadFns = append(deadFns, f)
 		}
+	}
+	sort.Strings(deadFns)
+	for _, f := range deadFns {
+		// On the unchanged tree every function under contract can return. A function none of whose returns
+		// is reachable satisfies its postconditions vacuously (it always panics or never leaves a loop):
+		// that is reported as the failed obligation <func>#reach[return], not passed over.
+		fmt.Printf("VACUOUS property=%s %s: no return path is reachable under the contract assumptions\n", rc.prop, f)
+		o := &Obligation{Name: f + "#reach[return]#0", Func: f, Kind: "reach", Props: []string{rc.prop}, Goal: "false",
+			Desc: "some return of " + f + " is reachable under its precondition (otherwise its postconditions hold vacuously)"}
+		o.Res = &SolveResult{Status: "unknown", Solver: "engine", Output: "every return path of " + f + " is unreachable: all cover obligations are unsat"}
+		r.obls = append(r.obls, o)
+		failed = append(failed, o)
 	}
 	if rc.dump {
 		for _, dc := range deadCalls {
